@@ -108,7 +108,8 @@ def run(ctx):
             ok = (got == want[: len(got)] and all(kw.get(k, k) == k for k in kw)) and (len(got) + len(kw) == len(want))
     r3.check(ok, f"{enq.module.relpath}::{enq.qual}::binding", "enqueue_task passes each of its parameters to the same-named parameter of the task coroutine",
              "enqueue_task binds its arguments to the wrong parameters of the task coroutine (e.g. deps and time_limit swapped)", enq.where)
-    hc = idx.func("gwf.backends.local:Server.handle_connection")
+    from ..inline import inlined
+    hc = inlined(ctx, idx.func("gwf.backends.local:Server.handle_connection"))
     ok = any(isinstance(c.func, ast.Attribute) and c.func.attr == "enqueue_task" and any(
         k.arg == "deps" and isinstance(k.value, ast.Call) and isinstance(k.value.func, ast.Attribute) and k.value.func.attr == "pop" and k.value.args
         and isinstance(k.value.args[0], ast.Constant) and k.value.args[0].value == "deps" for k in c.keywords) for c in _calls(hc.node))
